@@ -110,6 +110,8 @@ def run_check(prop, tier, seed, replay=None):
     spec = [prop.canon_model(x) for x in spec]
     if hasattr(prop, 'post_model'):
         mirror = prop.post_model(mirror, exes)
+    if hasattr(prop, 'spec_of'):
+        spec = [(prop.spec_of(c) or sp) for c, sp in zip(cases, spec)]
 
     unsupported = 0
     corr_breaks = []   # (case, impl, mirror, spec, profile)
@@ -126,6 +128,8 @@ def run_check(prop, tier, seed, replay=None):
                 corr_breaks.append((c, a, mirror[i], spec[i], p))
     for i, c in enumerate(cases):
         if spec[i] != '-' and mirror[i] != 'UNSUP' and mirror[i] != spec[i]:
+            if hasattr(prop, 'known_case') and prop.known_case(c):
+                continue      # a recorded finding: the faithful mirror violates the property exactly like the code
             model_bugs.append((c, '-', mirror[i], spec[i], '-'))
 
     # ---- direct predicates on the implementation
